@@ -1508,6 +1508,8 @@ class Interp:
     def call_external(self, name: str, args, kwargs, st: State, node) -> list[Out]:
         short = name.split(".")[-1]
         if name.startswith("builtins."):
+            if short == "bytes" and len(args) == 1 and isinstance(args[0], SeqV) and args[0].kind == "bytes":
+                return self.val(st, args[0])     # bytes(b) of a bytes object is an equal bytes object
             if short == "staticmethod" and len(args) == 1 and isinstance(args[0], FuncV):
                 return self.val(st, FuncV(args[0].func))   # class-level alias `name = staticmethod(function)`
             if short == "len" and len(args) == 1:
